@@ -20,6 +20,7 @@ RULE = ("random hosts (1-8 nodes, 0-3 extra ring bonds, symbols {C,O,N,H,c,Cl}, 
         "with/without subgraph_anchor, map_subgraph_to_graph}; anchors: the planted pair or random nodes, rarely a missing node; "
         "8% of the random draws are PLANTED 5-6 atom patterns in hetero-atom hosts (3-5 ring of C/N/O/S with pendant atoms): a sub-structure grown from a hetero anchor round/through the ring, mostly as a tree (ring-closing bond left out), degree-1 pattern atoms turned into R with p=0.6, so that several leaves compete for the same host atoms; anchors on hetero atoms; each emitted with shuffled and with reversed adjacency orders; 7% are mapper-HISTORY cases (pattern with pendant H/R atoms that have no counterpart in the host; the mapper is built after the public can_map_to_nothing list of another mapper was edited, from a caller list that is edited later, or from a list shared with a mapper with another wildcard; the answer must be the model answer for the original arguments, and object-identity / caller-list invariants are checked at run time); "
         "BOTH tiers also run the competing-leaves scope (bundled, pattern anchor fixed): four-ring N-C-Y-C (Y in {O,S}) with a pendant C/O on one or both ring carbons, each also with reversed adjacency orders, anchored on N, x patterns N(C-leaves)(C-leaves) with 2-3 leaves (5-6 atoms) over {R,O,S,C}, both branch orders: the ring atom Y is wanted by leaves of both branches; "
+        "8% of the random draws are IN-PLACE HISTORIES: one live host object and one live pattern object are used for 2-3 consecutive calls (any of the three entry points, one mapper object); the pattern is planted in a host H1, H0 lacks one thing it needs (a pendant atom, a bond, a symbol, a bond order); the object starts as H0 or H1 and is edited in place between the calls (add/remove node, add/remove bond, change symbol / bond order: edits that create the embedding and edits that destroy it, sometimes an unrelated new atom or an edit of the pattern object); every call is compared with the model and judged by the spec check on the objects' contents at that moment; "
         "20% of the remaining random cases are ring-biased: a 3-6 ring with MIXED bond orders (plus pendant atoms / a chord) and a pattern walked along the ring from the anchor, so that two equally labelled host neighbours compete and the search must backtrack when the wrong one is first in adjacency order; BOTH tiers run the exhaustive small cyclic scope (bundled: one generated case = one host, one host anchor, one mapper and up to 12 patterns, each run through map_subgraph, which tries every pattern anchor): every 3-, 4-, 5-ring with every assignment of bond orders {1,2} to its ring bonds, rooted at the host anchor (= all anchors up to rotation, mirror images included): all-C 3-/4-rings x ALL chain/branched patterns <= 4 nodes over {C,R}, 5-rings x patterns over {C,R} <= 3 nodes and C-only 4-node patterns, all of them x C-only patterns under the default mapper (R, ignore_case); 3-/4-rings with one pendant C (single/double) x every host anchor x C-only patterns with 3-4 nodes; 3-/4-rings with one O at every position x patterns over {C,R} <= 3 nodes (3-rings also under the default mapper and the mapper without wildcard); 12192 map_subgraph calls in quick; thorough: rings up to 6, all patterns <= 4 nodes; "
         "thorough adds the exhaustive scope: every connected host <= 4 nodes over {C,O}x{1,2} x every connected pattern <= 3 nodes over "
         "{C,R}x{1,2} (one representative per isomorphism class, random ids/orders) x every host anchor through map_subgraph, which tries every pattern anchor; "
